@@ -74,6 +74,13 @@ pub fn sanitize(s: &str) -> String {
                 }
                 out.push(' ');
                 i = j;
+            } else if c == ',' && matches!(cs.get(j), Some(c) if c.is_alphanumeric() || matches!(c, '(' | '{' | '.' | '°' | '\'')) {
+                // a digits argument that is not a literal (a word may be a fact worth millions, a group may compute
+                // anything): `round(x, n)` builds 10^n, so the stated bound "at most two digits after a comma" is kept
+                // by taking the comma away — the words join the first argument
+                if let Some(at) = out.rfind(',') {
+                    out.replace_range(at..at + 1, " ");
+                }
             } else if power && !matches!(cs.get(j), Some(c) if c.is_alphanumeric() || matches!(c, '(' | '{' | '.' | '°' | '\'')) {
                 // nothing that could evaluate to a number follows (end of input, a closing bracket, an
                 // operator, a blank that is not followed by a value ...): the operator is left dangling as
